@@ -140,9 +140,8 @@ def gen(rng, tier, spec):
 class Spec:
     """sequential specification of DelayedObjects<X> + std::promise/std::future, X's copy may throw.
     A throwing copy in setDelayedValue leaves everything as it was (the key stays pending).
-    A throwing copy in fulfillAllPromises before anything was delivered likewise; once that call has
-    delivered a value and then throws, the class is outside its specification (`torn`: the pending maps
-    keep moved-from promises) and the monitors stop."""
+    A throwing copy in fulfillAllPromises ends the call: the keys served so far (int keys first, then
+    string keys, each in key order) are completed, the others are still pending."""
 
     def __init__(self, nthreads, nslots):
         self.pending = {}      # (kind,key) -> future id
@@ -151,7 +150,6 @@ class Spec:
         self.key_of = []       # future id -> (kind,key)
         self.slots = [[None] * nslots for _ in range(nthreads)]
         self.nslots = nslots
-        self.torn = False
         self.sect = {}         # thread -> the part of its critical section that waits for a copy
 
     def lock(self, t, op):
@@ -204,8 +202,6 @@ class Spec:
         if sc is None or not sc['todo']:
             return
         if throws:
-            if op[0] == FULFILL and sc['done'] > 0:
-                self.torn = True
             self.sect.pop(t, None)
             return
         self._set(sc['todo'].pop(0), sc['v'])
@@ -239,8 +235,7 @@ class Spec:
 
 
 def _replay(case, lines):
-    """walk the implementation trace; yield (line index, tid, what, op, observed, expected, spec);
-    stops when the run leaves the specification (see Spec.torn)"""
+    """walk the implementation trace; yield (line index, tid, what, op, observed, expected, spec)"""
     progs = case['progs']
     nslots = case['cfg'][0] if case['cfg'] else 0
     sp = Spec(len(progs), nslots)
@@ -270,8 +265,6 @@ def _replay(case, lines):
             th = len(nl) == 5 and nl[0] == t and nl[1] == K['THROW']
             if cur[t] is not None:
                 sp.copy(t, cur[t], th)
-                if sp.torn:
-                    return
             threw[t] = threw[t] or th
         elif k == K['UNLOCK']:
             if cur[t] is not None and not threw[t]:
